@@ -145,6 +145,31 @@ func rulesNewickNames(c *Ctx, r *Report) {
 		}
 	})
 	if contains == nil {
+		// the test in a predicate of the package: needsQuotes(name) = strings.ContainsAny(name, constant)
+		instrs(n2t, func(in ssa.Instruction) {
+			cl, ok := in.(*ssa.Call)
+			if !ok || contains != nil || len(cl.Call.Args) != 1 || cl.Call.Args[0] != ssa.Value(n2t.Params[0]) {
+				return
+			}
+			g := cl.Call.StaticCallee()
+			if g == nil || g.Blocks == nil || g.Pkg != n2t.Pkg || len(g.Blocks) != 1 || len(g.Params) != 1 {
+				return
+			}
+			rt, ok := lastInstr(g.Blocks[0]).(*ssa.Return)
+			if !ok || len(rt.Results) != 1 {
+				return
+			}
+			inner, ok := rt.Results[0].(*ssa.Call)
+			if !ok || !fnIs(inner.Call.StaticCallee(), "strings", "ContainsAny") || inner.Call.Args[0] != ssa.Value(g.Params[0]) {
+				return
+			}
+			if s, ok := constStr(inner.Call.Args[1]); ok {
+				T, contains = s, cl
+				r.analysed(fname(g))
+			}
+		})
+	}
+	if contains == nil {
 		r.undecided("G3", fname(n2t), "quoting set", c.pos(n2t.Pos()), "no strings.ContainsAny(name, constant) found")
 		return
 	}
